@@ -644,7 +644,11 @@ class BuiltArray:
         pattern = list(pattern) + [None] * (len(self.shape) - len(pattern))
         ranges = []
         for p_, n in zip(pattern, self.shape):
-            if p_ is None:
+            if n is None:  # extent not a literal: only a constant non-negative index can be followed
+                if p_ is None or p_ < 0:
+                    return None
+                ranges.append([p_])
+            elif p_ is None:
                 ranges.append(range(n))
             else:
                 if not (-n <= p_ < n):
@@ -753,7 +757,7 @@ class Store:
 
 
 NP_UNARY_POW = {"np.sqrt": Fraction(1, 2), "numpy.sqrt": Fraction(1, 2)}
-NP_OPAQUE_FUNCS = {"np.exp": "exp", "np.log": "log", "np.abs": "abs", "abs": "abs",
+NP_OPAQUE_FUNCS = {"max": "max", "min": "min", "np.exp": "exp", "np.log": "log", "np.abs": "abs", "abs": "abs",
                    "np.maximum": "max", "np.minimum": "min", "np.cos": "cos", "np.sin": "sin"}
 NP_IDENTITY = {"np.asarray", "np.array", "np.ascontiguousarray", "float", "np.float64"}
 
@@ -904,6 +908,8 @@ class Evaluator:
 
     def _call(self, node):
         name = pf.call_name(node)
+        if isinstance(self.assume.get(pf.src(node)), bool):
+            return PyConst(self.assume[pf.src(node)])  # e.g. isinstance(rho, np.ndarray) assumed true
         if name in NP_UNARY_POW and len(node.args) == 1:
             return self.poly(node.args[0]).pow(Poly.const(NP_UNARY_POW[name]))
         if name in NP_OPAQUE_FUNCS and not node.keywords:
@@ -913,6 +919,9 @@ class Evaluator:
             if f in ("max", "min"):
                 keys = sorted(keys, key=_skey)
             return Poly.atom(("f", f, tuple(keys)))
+        if name in NP_IDENTITY and len(node.args) >= 1 and name.startswith("np.") \
+                and isinstance(node.args[0], (ast.List, ast.Tuple)) and len(node.args[0].elts) == 1:
+            return self.ev(node.args[0].elts[0])  # np.asarray([v]): the scalar wrapped as a one-point array
         if name in NP_IDENTITY and len(node.args) == 1:
             return self.ev(node.args[0])
         if name in ("np.divide", "np.true_divide") and len(node.args) == 2:
@@ -924,9 +933,11 @@ class Evaluator:
         if isinstance(node.func, ast.Attribute) and node.func.attr in ("copy", "item") and not node.args:
             return self.ev(node.func.value)
         if name in ("np.zeros", "numpy.zeros") and node.args and isinstance(node.args[0], (ast.Tuple, ast.List)) \
-                and all(isinstance(e, ast.Constant) and isinstance(e.value, int) for e in node.args[0].elts) \
-                and 0 < len(node.args[0].elts) <= 4 and all(0 < e.value <= 8 for e in node.args[0].elts):
-            return BuiltArray([e.value for e in node.args[0].elts])
+                and 0 < len(node.args[0].elts) <= 4:
+            dims = [e.value if isinstance(e, ast.Constant) and isinstance(e.value, int) and 0 < e.value <= 8 else None
+                    for e in node.args[0].elts]
+            if any(d is not None for d in dims):
+                return BuiltArray(dims)
         if self.call is not None:
             v = self.call(node, self)
             if v is not None:
@@ -938,6 +949,12 @@ class Evaluator:
     # -- tests ---------------------------------------------------------------
     def decide(self, test):
         """True / False / None"""
+        ts = pf.src(test)
+        if ts in self.assume and isinstance(self.assume[ts], bool):
+            return self.assume[ts]
+        if isinstance(test, ast.Name) and isinstance(self.env.get(test.id), PyConst) \
+                and isinstance(self.env[test.id].v, bool):
+            return self.env[test.id].v
         if isinstance(test, ast.BoolOp):
             vals = [self.decide(v) for v in test.values]
             if isinstance(test.op, ast.And):
@@ -979,6 +996,16 @@ class Evaluator:
                         and all(isinstance(e, ast.Constant) for e in r.elts):
                     isin = (val is not ELSE) and val in [e.value for e in r.elts]
                     return isin if isinstance(op, ast.In) else not isin
+            if isinstance(op, (ast.Eq, ast.NotEq, ast.Lt, ast.LtE, ast.Gt, ast.GtE)) and ls not in self.assume:
+                try:
+                    a_, b_ = self.ev(l), self.ev(r)
+                except NotComparable:
+                    a_ = b_ = None
+                ca = a_.as_const() if isinstance(a_, Poly) else None
+                cb = b_.as_const() if isinstance(b_, Poly) else None
+                if ca is not None and cb is not None:
+                    return {ast.Eq: ca == cb, ast.NotEq: ca != cb, ast.Lt: ca < cb, ast.LtE: ca <= cb,
+                            ast.Gt: ca > cb, ast.GtE: ca >= cb}[type(op)]
             if isinstance(op, (ast.Is, ast.IsNot)) and isinstance(r, ast.Constant) and r.value is None \
                     and isinstance(l, ast.Name) and l.id in self.env:
                 v = self.env[l.id]
@@ -1014,7 +1041,8 @@ class Evaluator:
                 sl = target.slice
                 elts = sl.elts if isinstance(sl, ast.Tuple) else [sl]
                 if all(isinstance(e, ast.Constant) and isinstance(e.value, int) for e in elts) and isinstance(value, Poly) \
-                        and len(elts) <= len(cur.shape) and all(0 <= e.value < n for e, n in zip(elts, cur.shape)):
+                        and len(elts) <= len(cur.shape) \
+                        and all(0 <= e.value and (n is None or e.value < n) for e, n in zip(elts, cur.shape)):
                     cur.entries[tuple(e.value for e in elts)] = value
                 else:
                     self.env[base] = Unknown("store %s into a constructed array" % pf.src(node)[:50])
@@ -1028,6 +1056,14 @@ class Evaluator:
                 # present in the value ( x = max(y, c); x[x < c] = c )
                 if isinstance(value, Poly) and _reasserts_bound(cur, value):
                     return
+                ms = self._masks_of(target)
+                if len(ms) == 1 and isinstance(ms[0], Mask) and isinstance(value, Poly):
+                    mk = ms[0]
+                    if mk.dead() or mask_never(mk):
+                        return  # the mask is never true
+                    if mk.op == "<" and mk.left == cur and mk.right == value:
+                        self.env[base] = Poly.atom(("f", "max", tuple(sorted([cur.key, value.key], key=_skey))))
+                        return
                 self.env[base] = Unknown("partial store %s" % pf.src(node)[:60])
                 return
             self.stores.append(Store(base, key, "=", value, node, self.depth, self.env.get(base),
@@ -1194,6 +1230,58 @@ class Evaluator:
 
 class _Returned(Exception):
     pass
+
+
+def positive_monomial(p):
+    """a single product with a positive coefficient: positive for positive names"""
+    if not p.is_monomial():
+        return False
+    (m, c), = p.terms.items()
+    return c > 0 and all(a[0] in ("n", "#", "pi") for a, _ in m)
+
+
+def mask_never(mk):
+    """L < c with L a positive product and c <= 0 (names denote positive reals)"""
+    c = mk.right.as_const()
+    if mk.op in ("<", "<=") and c is not None and (c < 0 or (c == 0 and mk.op == "<")) and positive_monomial(mk.left):
+        return True
+    c = mk.left.as_const()
+    if mk.op in (">", ">=") and c is not None and (c < 0 or (c == 0 and mk.op == ">")) and positive_monomial(mk.right):
+        return True
+    return False
+
+
+def drop_inactive_clamps(p):
+    """max(P, c) -> P when P is a positive product and c <= 0 (never active for positive names)"""
+    mapping = {}
+    for a in p.atoms():
+        if a[0] == "f" and a[1] == "max" and len(a[2]) == 2:
+            x, y = from_key(a[2][0]), from_key(a[2][1])
+            for u, v in ((x, y), (y, x)):
+                c = v.as_const()
+                if c is not None and c <= 0 and positive_monomial(u):
+                    mapping[a] = u
+    if not mapping:
+        return p
+    try:
+        return p.subst(mapping)
+    except NotComparable:
+        return p
+
+
+def link_imported_constants(prog):
+    """`from <repo module> import NAME`: make the module-level expression of NAME visible in the
+    importing module's table of constants (never overriding its own assignments)."""
+    for rel, m in prog.modules.items():
+        for local, (src_mod, orig) in list(m.imports.items()):
+            if orig is None or local in m.assigns:
+                continue
+            rel2 = prog._modname.get(src_mod)
+            if rel2 is None or rel2 == rel:
+                continue
+            m2 = prog.modules[rel2]
+            if orig in m2.assigns:
+                m.assigns[local] = m2.assigns[orig]
 
 
 def _reasserts_bound(cur, value):
